@@ -32,10 +32,10 @@ Definition rmw_operand (e : exprtype) : bool :=
 
 (** * Loads, stores, ALU operations and compares *)
 
-Theorem asm_sel_legal : forall sch m e high m' sg em,
+Theorem asm_sel0_legal : forall sch m e high m' sg em,
   data_mnemonic m = true -> data_operand e = true ->
   expr_wf e ->
-  asm_sel sch m e high = AEmit m' sg em ->
+  asm_sel0 sch m e high = AEmit m' sg em ->
   (AsmSel.is_st m = true -> shape_of (operand_of (e_op em)) <> ShImm) ->
   resolve m' (shape_of (operand_of (e_op em))) (popnd_zp e (e_op em)) <> None.
 Proof.
@@ -49,7 +49,7 @@ Proof.
     all: cbn; discriminate.
   - (* Absolute: an encoding exists wherever the operand is *)
     set (zp := popnd_zp _ _); clearbody zp.
-    unfold asm_sel in H; cbv zeta in H.
+    unfold asm_sel0 in H; cbv zeta in H.
     destruct (v_type v), (is_zp v), (v_const v), eight, high; cbn -[port_offset Z.add Z.ltb] in H.
     all: try discriminate H.
     all: try (destruct (v_addr v) as [a|]; [destruct (255 <? _)%Z in H|]; cbn [negb] in H).
@@ -59,8 +59,8 @@ Proof.
     all: first [ discriminate | (exfalso; apply St; reflexivity) ].
   - (* AbsoluteX: the class decides, known address or not *)
     unfold expr_wf in W; cbn [expr_var] in W.
-    rewrite (resolve_absx_class _ _ _ _ _ _ _ W H).
-    unfold asm_sel in H; cbv zeta in H.
+    rewrite (resolve_absx_class0 _ _ _ _ _ _ _ W H).
+    unfold asm_sel0 in H; cbv zeta in H.
     destruct (v_size v =? 1)%Z; destruct (v_type v), (is_zp v), (v_const v), high; cbn -[port_offset] in H.
     all: try discriminate H.
     all: destruct m; try discriminate D; cbn -[port_offset] in H.
@@ -70,8 +70,8 @@ Proof.
     all: first [ discriminate | (exfalso; apply St; reflexivity) ].
   - (* AbsoluteY *)
     unfold expr_wf in W; cbn [expr_var] in W.
-    rewrite (resolve_absy_class _ _ _ _ _ _ _ W H).
-    unfold asm_sel in H; cbv zeta in H.
+    rewrite (resolve_absy_class0 _ _ _ _ _ _ _ W H).
+    unfold asm_sel0 in H; cbv zeta in H.
     destruct (v_size v =? 1)%Z; destruct (v_type v), (is_zp v), (v_const v), high; cbn -[port_offset] in H.
     all: try discriminate H.
     all: destruct m; try discriminate D; cbn -[port_offset] in H.
@@ -82,18 +82,78 @@ Proof.
   - discriminate O.
   - discriminate O.
 Qed.
+Print Assumptions asm_sel0_legal.
+
+(** stores and read-modify-write instructions never get an immediate operand: [asm()] answers
+    "Bad left value in assignement" instead *)
+Theorem asm_sel_no_write_imm : forall sch m e high m' sg em,
+  asm_sel sch m e high = AEmit m' sg em ->
+  writes_mem m' = true ->
+  shape_of (operand_of (e_op em)) <> ShImm.
+Proof.
+  intros sch m e high m' sg em H Wr Sh.
+  apply asm_sel_emit_inv in H as [_ G].
+  apply is_imm_popnd_shape in Sh. rewrite Wr, Sh in G. discriminate G.
+Qed.
+Print Assumptions asm_sel_no_write_imm.
+
+(** the same with the requested mnemonic *)
+Theorem asm_sel_no_write_imm_requested : forall sch m e high m' sg em,
+  asm_sel sch m e high = AEmit m' sg em ->
+  writes_mem m = true ->
+  shape_of (operand_of (e_op em)) <> ShImm.
+Proof.
+  intros sch m e high m' sg em H Wr Sh.
+  apply asm_sel_emit_inv in H as [H G].
+  rewrite (asm_sel_guard_requested _ _ _ _ _ _ _ H) in G.
+  apply is_imm_popnd_shape in Sh. rewrite Wr, Sh in G. discriminate G.
+Qed.
+Print Assumptions asm_sel_no_write_imm_requested.
+
+(** with the guard the store hypothesis of [asm_sel0_legal] is a consequence *)
+Theorem asm_sel_legal_strong : forall sch m e high m' sg em,
+  data_mnemonic m = true -> data_operand e = true ->
+  expr_wf e ->
+  asm_sel sch m e high = AEmit m' sg em ->
+  resolve m' (shape_of (operand_of (e_op em))) (popnd_zp e (e_op em)) <> None.
+Proof.
+  intros sch m e high m' sg em D O W H.
+  pose proof (asm_sel_no_write_imm_requested _ _ _ _ _ _ _ H) as NW.
+  apply asm_sel_emit_inv in H as [H _].
+  apply (asm_sel0_legal _ _ _ _ _ _ _ D O W H).
+  intros St. apply NW. destruct m; try discriminate St; reflexivity.
+Qed.
+Print Assumptions asm_sel_legal_strong.
+
+Theorem asm_sel_legal : forall sch m e high m' sg em,
+  data_mnemonic m = true -> data_operand e = true ->
+  expr_wf e ->
+  asm_sel sch m e high = AEmit m' sg em ->
+  (AsmSel.is_st m = true -> shape_of (operand_of (e_op em)) <> ShImm) ->
+  resolve m' (shape_of (operand_of (e_op em))) (popnd_zp e (e_op em)) <> None.
+Proof.
+  intros sch m e high m' sg em D O W H _. exact (asm_sel_legal_strong _ _ _ _ _ _ _ D O W H).
+Qed.
 Print Assumptions asm_sel_legal.
 
-(** the store hypothesis is needed: [asm()] emits [STA #0] for the high byte of an 8-bit
-    variable, and the 6502 has no immediate store *)
-Example asm_sel_store_imm_unencodable :
+(** regression witness of the code before the guard: the store hypothesis of [asm_sel0_legal] is
+    needed, [asm()] emitted [STA #0] for the high byte of an 8-bit variable, and the 6502 has no
+    immediate store *)
+Example asm_sel0_store_imm_unencodable :
   let v := mkVar "v" VChar false false MZeropage 1 None in
   exists em,
-    asm_sel SOther STA (EAbsolute v true 0) true = AEmit STA false em /\
+    asm_sel0 SOther STA (EAbsolute v true 0) true = AEmit STA false em /\
     e_op em = PNum 0 /\
     resolve STA (shape_of (operand_of (e_op em))) (popnd_zp (EAbsolute v true 0) (e_op em)) = None.
 Proof. vm_compute. eexists. repeat split. Qed.
-Print Assumptions asm_sel_store_imm_unencodable.
+Print Assumptions asm_sel0_store_imm_unencodable.
+
+(** ... the same request is now refused *)
+Example asm_sel_store_imm_refused :
+  let v := mkVar "v" VChar false false MZeropage 1 None in
+  asm_sel SOther STA (EAbsolute v true 0) true = AErr "Bad left value in assignement".
+Proof. vm_compute. reflexivity. Qed.
+Print Assumptions asm_sel_store_imm_refused.
 
 (** * Read-modify-write mnemonics *)
 
@@ -114,28 +174,28 @@ Qed.
 Print Assumptions resolve_rmw_iff.
 
 (** [asm()] never changes a read-modify-write mnemonic *)
-Theorem asm_sel_rmw_same_mnemonic : forall sch m e high m' sg em,
+Theorem asm_sel0_rmw_same_mnemonic : forall sch m e high m' sg em,
   rmw_mnemonic m = true ->
-  asm_sel sch m e high = AEmit m' sg em -> m' = m.
+  asm_sel0 sch m e high = AEmit m' sg em -> m' = m.
 Proof.
   intros sch m e high m' sg em M H.
   destruct e as [ | v | s | v eight off | v | v | s | l ].
   - cbn in H. inv_emit H. reflexivity.
   - cbn in H. inv_emit H. reflexivity.
   - cbn in H. inv_emit H. reflexivity.
-  - unfold asm_sel in H; cbv zeta in H.
+  - unfold asm_sel0 in H; cbv zeta in H.
     destruct (v_type v), (is_zp v), (v_const v), eight, high; cbn -[port_offset Z.add Z.ltb] in H.
     all: try discriminate H.
     all: try (destruct (v_addr v) as [a|]; [destruct (255 <? _)%Z in H|]; cbn [negb] in H).
     all: inv_emit H.
     all: reflexivity.
-  - unfold asm_sel in H; cbv zeta in H.
+  - unfold asm_sel0 in H; cbv zeta in H.
     destruct (v_size v =? 1)%Z; destruct (v_type v), (is_zp v), (v_const v), high; cbn -[port_offset] in H.
     all: try discriminate H.
     all: destruct m; try discriminate M; cbn -[port_offset] in H.
     all: inv_emit H.
     all: reflexivity.
-  - unfold asm_sel in H; cbv zeta in H.
+  - unfold asm_sel0 in H; cbv zeta in H.
     destruct (v_size v =? 1)%Z; destruct (v_type v), (is_zp v), (v_const v), high; cbn -[port_offset] in H.
     all: try discriminate H.
     all: destruct m; try discriminate M; cbn -[port_offset] in H.
@@ -148,12 +208,35 @@ Proof.
     all: inv_emit H.
     all: reflexivity.
 Qed.
+Print Assumptions asm_sel0_rmw_same_mnemonic.
+
+Theorem asm_sel_rmw_same_mnemonic : forall sch m e high m' sg em,
+  rmw_mnemonic m = true ->
+  asm_sel sch m e high = AEmit m' sg em -> m' = m.
+Proof.
+  intros sch m e high m' sg em M H. apply asm_sel_emit_inv in H as [H _].
+  exact (asm_sel0_rmw_same_mnemonic _ _ _ _ _ _ _ M H).
+Qed.
 Print Assumptions asm_sel_rmw_same_mnemonic.
 
 (** the whole picture: for a read-modify-write mnemonic, what [asm()] emits is encodable exactly
     when the emitted operand is a plain or X-indexed memory operand, a label, or nothing for a
-    shift.  Everything else that is emitted (immediates, [,Y], [(p),Y], INC/DEC with no operand) is
-    accepted by [asm()] and has no 6502 encoding: there is no guard for these mnemonics. *)
+    shift.  Everything else that is emitted (immediates before the "Bad left value" guard, [,Y],
+    [(p),Y], INC/DEC with no operand) is accepted by [asm()] and has no 6502 encoding: there is no
+    other guard for these mnemonics. *)
+Theorem asm_sel0_rmw_exact : forall sch m e high m' sg em,
+  rmw_mnemonic m = true ->
+  asm_sel0 sch m e high = AEmit m' sg em ->
+  (resolve m' (shape_of (operand_of (e_op em))) (popnd_zp e (e_op em)) <> None <->
+   let sh := shape_of (operand_of (e_op em)) in
+   sh = ShMem \/ sh = ShMemX \/ sh = ShLabel \/ (sh = ShNone /\ shift_mnemonic m = true)).
+Proof.
+  intros sch m e high m' sg em M H.
+  rewrite (asm_sel0_rmw_same_mnemonic _ _ _ _ _ _ _ M H).
+  apply resolve_rmw_iff. exact M.
+Qed.
+Print Assumptions asm_sel0_rmw_exact.
+
 Theorem asm_sel_rmw_exact : forall sch m e high m' sg em,
   rmw_mnemonic m = true ->
   asm_sel sch m e high = AEmit m' sg em ->
@@ -169,31 +252,55 @@ Print Assumptions asm_sel_rmw_exact.
 
 (** with a temporary, a plain variable or an X-indexed variable, the emitted operand of a
     read-modify-write mnemonic has an encoding unless it degenerated to an immediate *)
-Theorem asm_sel_legal_rmw : forall sch m e high m' sg em,
+Theorem asm_sel0_legal_rmw : forall sch m e high m' sg em,
   rmw_mnemonic m = true -> rmw_operand e = true ->
-  asm_sel sch m e high = AEmit m' sg em ->
+  asm_sel0 sch m e high = AEmit m' sg em ->
   shape_of (operand_of (e_op em)) <> ShImm ->
   resolve m' (shape_of (operand_of (e_op em))) (popnd_zp e (e_op em)) <> None.
 Proof.
   intros sch m e high m' sg em M O H Sh.
-  apply (asm_sel_rmw_exact _ _ _ _ _ _ _ M H). cbv zeta.
+  apply (asm_sel0_rmw_exact _ _ _ _ _ _ _ M H). cbv zeta.
   destruct e as [ | v | s | v eight off | v | v | s | l ]; try discriminate O.
   - (* Tmp *) cbn in H. inv_emit H. left; reflexivity.
   - (* Absolute *)
-    unfold asm_sel in H; cbv zeta in H.
+    unfold asm_sel0 in H; cbv zeta in H.
     destruct (v_type v), (is_zp v), (v_const v), eight, high; cbn -[port_offset Z.add Z.ltb] in H.
     all: try discriminate H.
     all: try (destruct (v_addr v) as [a|]; [destruct (255 <? _)%Z in H|]; cbn [negb] in H).
     all: inv_emit H.
     all: first [ left; reflexivity | (exfalso; apply Sh; reflexivity) ].
   - (* AbsoluteX *)
-    unfold asm_sel in H; cbv zeta in H.
+    unfold asm_sel0 in H; cbv zeta in H.
     destruct (v_size v =? 1)%Z; destruct (v_type v), (is_zp v), (v_const v), high; cbn -[port_offset] in H.
     all: try discriminate H.
     all: destruct m; try discriminate M; cbn -[port_offset] in H.
     all: try discriminate H.
     all: inv_emit H.
     all: first [ right; left; reflexivity | (exfalso; apply Sh; reflexivity) ].
+Qed.
+Print Assumptions asm_sel0_legal_rmw.
+
+(** with the guard, nothing degenerates to an immediate any more *)
+Theorem asm_sel_legal_rmw_strong : forall sch m e high m' sg em,
+  rmw_mnemonic m = true -> rmw_operand e = true ->
+  asm_sel sch m e high = AEmit m' sg em ->
+  resolve m' (shape_of (operand_of (e_op em))) (popnd_zp e (e_op em)) <> None.
+Proof.
+  intros sch m e high m' sg em M O H.
+  pose proof (asm_sel_no_write_imm_requested _ _ _ _ _ _ _ H) as NW.
+  apply asm_sel_emit_inv in H as [H _].
+  apply (asm_sel0_legal_rmw _ _ _ _ _ _ _ M O H).
+  apply NW. destruct m; try discriminate M; reflexivity.
+Qed.
+Print Assumptions asm_sel_legal_rmw_strong.
+
+Theorem asm_sel_legal_rmw : forall sch m e high m' sg em,
+  rmw_mnemonic m = true -> rmw_operand e = true ->
+  asm_sel sch m e high = AEmit m' sg em ->
+  shape_of (operand_of (e_op em)) <> ShImm ->
+  resolve m' (shape_of (operand_of (e_op em))) (popnd_zp e (e_op em)) <> None.
+Proof.
+  intros sch m e high m' sg em M O H _. exact (asm_sel_legal_rmw_strong _ _ _ _ _ _ _ M O H).
 Qed.
 Print Assumptions asm_sel_legal_rmw.
 
@@ -210,15 +317,15 @@ Print Assumptions asm_sel_legal_shift_acc.
 
 
 (** every Y-indexed cell is emitted and unencodable for a read-modify-write mnemonic *)
-Theorem asm_sel_rmw_y_never_legal : forall sch m v high m' sg em,
+Theorem asm_sel0_rmw_y_never_legal : forall sch m v high m' sg em,
   rmw_mnemonic m = true ->
-  asm_sel sch m (EAbsoluteY v) high = AEmit m' sg em ->
+  asm_sel0 sch m (EAbsoluteY v) high = AEmit m' sg em ->
   shape_of (operand_of (e_op em)) <> ShImm ->
   resolve m' (shape_of (operand_of (e_op em))) (popnd_zp (EAbsoluteY v) (e_op em)) = None.
 Proof.
   intros sch m v high m' sg em M H Sh.
   set (zp := popnd_zp _ _); clearbody zp.
-  unfold asm_sel in H; cbv zeta in H.
+  unfold asm_sel0 in H; cbv zeta in H.
   destruct (v_size v =? 1)%Z; destruct (v_type v), (is_zp v), (v_const v), high; cbn -[port_offset] in H.
   all: try discriminate H.
   all: destruct m; try discriminate M; cbn -[port_offset] in H.
@@ -226,6 +333,29 @@ Proof.
   all: inv_emit H.
   all: destruct zp; cbn -[port_offset] in Sh; cbn -[port_offset].
   all: first [ reflexivity | (exfalso; apply Sh; reflexivity) ].
+Qed.
+Print Assumptions asm_sel0_rmw_y_never_legal.
+
+Theorem asm_sel_rmw_y_never_legal_strong : forall sch m v high m' sg em,
+  rmw_mnemonic m = true ->
+  asm_sel sch m (EAbsoluteY v) high = AEmit m' sg em ->
+  resolve m' (shape_of (operand_of (e_op em))) (popnd_zp (EAbsoluteY v) (e_op em)) = None.
+Proof.
+  intros sch m v high m' sg em M H.
+  pose proof (asm_sel_no_write_imm_requested _ _ _ _ _ _ _ H) as NW.
+  apply asm_sel_emit_inv in H as [H _].
+  apply (asm_sel0_rmw_y_never_legal _ _ _ _ _ _ _ M H).
+  apply NW. destruct m; try discriminate M; reflexivity.
+Qed.
+Print Assumptions asm_sel_rmw_y_never_legal_strong.
+
+Theorem asm_sel_rmw_y_never_legal : forall sch m v high m' sg em,
+  rmw_mnemonic m = true ->
+  asm_sel sch m (EAbsoluteY v) high = AEmit m' sg em ->
+  shape_of (operand_of (e_op em)) <> ShImm ->
+  resolve m' (shape_of (operand_of (e_op em))) (popnd_zp (EAbsoluteY v) (e_op em)) = None.
+Proof.
+  intros sch m v high m' sg em M H _. exact (asm_sel_rmw_y_never_legal_strong _ _ _ _ _ _ _ M H).
 Qed.
 Print Assumptions asm_sel_rmw_y_never_legal.
 
